@@ -89,28 +89,58 @@ def thread_flags(fn):
                             _retarget(pb['t'], b, tgt)
                         if repr(pb['t']) != before:
                             step += 1
-        # (2) thread constant flags
-        for sidx, sblk in enumerate(blocks):
-            st = sblk['t']
-            if st['k'] != 'switch' or not only_trivial(sblk):
+        # (2) thread constant flags: a block that ends in `goto S` where S switches on a local whose value is a constant
+        # after the straight-line statements of the block and of S (constants, copies, `!`) jumps to the switch's target,
+        # taking S's statements along
+        def run_env(stmts, e):
+            for s_ in stmts:
+                if s_.get('k') != 'assign' or s_['lhs'].get('p'):
+                    continue
+                l_ = s_['lhs']['l']
+                rv = s_['rv']
+                k = _const_int(rv)
+                if k is not None and l_ not in bad:
+                    e[l_] = k
+                    continue
+                src = None
+                if rv.get('k') == 'use':
+                    src = (_bare(rv.get('x', {})), False)
+                elif rv.get('k') in ('un', 'unary') and rv.get('op') == 'Not':
+                    src = (_bare(rv.get('x', {})), True)
+                if src and src[0] is not None and src[0] in e and l_ not in bad:
+                    e[l_] = int(not e[src[0]]) if src[1] else e[src[0]]
+                else:
+                    e.pop(l_, None)
+            return e
+        def simple(blk):
+            return not blk.get('cleanup') and all(s_.get('k') in trivial + ('assign',) for s_ in blk['s'])
+        for p, pb in enumerate(blocks):
+            pt = pb['t']
+            if pt['k'] != 'goto' or pb.get('cleanup'):
                 continue
+            # follow gotos through blocks of plain assignments to a switch
+            chain, cur, hops = [], pt['t'], 0
+            while hops < 4 and cur != p and cur not in chain and simple(blocks[cur]) and blocks[cur]['t']['k'] == 'goto':
+                chain.append(cur)
+                cur = blocks[cur]['t']['t']
+                hops += 1
+            if cur == p or cur in chain or not simple(blocks[cur]) or blocks[cur]['t']['k'] != 'switch':
+                continue
+            st = blocks[cur]['t']
             l = _bare(st['x'])
-            if l is None or l not in flags:
+            if l is None or l in bad or l <= raw.get('argc', 0):
                 continue
-            for p, pb in enumerate(blocks):
-                pt = pb['t']
-                if pt['k'] != 'goto' or pt['t'] != sidx or p == sidx:
-                    continue
-                val = None
-                for s in pb['s']:
-                    if s.get('k') == 'assign' and not s['lhs'].get('p') and s['lhs']['l'] == l:
-                        val = _const_int(s['rv'])
-                if val is None:
-                    continue
-                tg = [t2 for v, t2 in st['ts'] if v == val]
-                pt['t'] = tg[0] if tg else st['o']
-                pt['threaded'] = True
-                step += 1
+            e = run_env(pb['s'], {})
+            extra = []
+            for cb in chain + [cur]:
+                e = run_env(blocks[cb]['s'], e)
+                extra += copy.deepcopy(blocks[cb]['s'])
+            if l not in e:
+                continue
+            tg = [t2 for v, t2 in st['ts'] if v == e[l]]
+            pb['s'] = pb['s'] + extra
+            pb['t'] = {'k': 'goto', 't': tg[0] if tg else st['o'], 'line': pt.get('line'), 'threaded': True}
+            step += 1
         changed += step
         if not step:
             break
@@ -133,7 +163,7 @@ def facts(fn, b):
         for s in set(fn.succ[d]):
             if not fn.dominates(s, b):
                 continue
-            if any(p != d and not fn.dominates(s, p) for p in fn.pred[s]):
+            if any(p != d and p in fn.reach and not fn.dominates(s, p) for p in fn.pred[s]):
                 continue
             cond = fn.operand_tree(t['x'])
             vals = [v for v, tgt in t['ts'] if tgt == s]
